@@ -40,6 +40,26 @@ pub fn devices() -> Vec<Dev> {
     v
 }
 
+/// Pragmas of the vendor's assembler (AVRASM2 documents these) none of them selects a device or a core.
+pub const PRAGMAS: &[&str] = &[
+    ".pragma warning instruction",
+    "#pragma warning instruction",
+    ".pragma error instruction",
+    "#pragma error instruction",
+    "#pragma AVRPART ADMIN PART_NAME ATmega2560",
+    "#pragma AVRPART CORE CORE_VERSION V3",
+    "#pragma AVRPART CORE INST_LPM 1",
+    "#pragma AVRPART MEMORY PROG_FLASH 262144",
+    ".pragma warning range byte option integer",
+    ".pragma warning overlap",
+    "#pragma overlap option ignore",
+    "#pragma overlap option warning",
+    ".pragma partinc 0",
+    "#pragma partinclude push",
+    ".pragma instruction warning",
+    ".pragma all instructions allowed",
+];
+
 pub fn run(ctx: &Ctx) -> Result<Ev, String> {
     isa::self_test()?;
     let devs = devices();
@@ -156,6 +176,7 @@ pub fn run(ctx: &Ctx) -> Result<Ev, String> {
             let rel_free: Vec<&(String, String)> = allowed_lines.iter().filter(|(l, _)| !l.contains("pc")).collect();
             let all_allowed: String = rel_free.iter().map(|(l, _)| format!("{}\n", l)).collect();
             let mut seen = std::collections::BTreeSet::new();
+            let mut pragma_i = dev.name.len();
             for (gl, gm, reason) in &gated_lines {
                 if gl.contains("pc") || !seen.insert((gm.clone(), gl.split(',').last().unwrap_or("").trim().to_string())) {
                     continue;
@@ -166,7 +187,13 @@ pub fn run(ctx: &Ctx) -> Result<Ev, String> {
                     ("after-available-forms-of-same-mnemonic", format!(".device {}\n{}{}\nnop\n", dev.name, same, gl)),
                     ("before-available-forms", format!(".device {}\n{}\n{}", dev.name, gl, all_allowed)),
                     ("in-second-code-segment", format!(".device {}\n{}.dseg\n.cseg\n.org 0x100\n{}{}\n", dev.name, same, same, gl)),
+                    // the directives that select nothing (the pragmas of the vendor's assembler, which the shipped
+                    // part-definition files are full of) change nothing about what the device lacks
+                    ("with-pragma-in-front", format!("{}\n.device {}\n{}\n", PRAGMAS[pragma_i % PRAGMAS.len()], dev.name, gl)),
+                    ("with-pragma-behind-device", format!(".device {}\n{}\n{}\n", dev.name, PRAGMAS[(pragma_i + 3) % PRAGMAS.len()], gl)),
+                    ("with-pragma-at-the-end", format!(".device {}\n{}\n{}\n", dev.name, gl, PRAGMAS[(pragma_i + 7) % PRAGMAS.len()])),
                 ] {
+                    pragma_i += 1;
                     ev.eval();
                     ev.class(&format!("sequence:{}", variant));
                     ev.nt(fp(&src));
@@ -180,7 +207,7 @@ pub fn run(ctx: &Ctx) -> Result<Ev, String> {
             {
                 ev.eval();
                 ev.class("sequence:all-available-forms-build");
-                let src = format!(".device {}\n{}", dev.name, all_allowed);
+                let src = format!("{}\n.device {}\n{}\n{}{}\n", PRAGMAS[pragma_i % PRAGMAS.len()], dev.name, PRAGMAS[(pragma_i + 5) % PRAGMAS.len()], all_allowed, PRAGMAS[(pragma_i + 11) % PRAGMAS.len()]);
                 let chk = Check::MustBuild { src: src.clone() };
                 if let Err(e) = chk.eval() {
                     ev.violation(Violation { sig: "c13:allowed:sequence:rejected".into(), what: format!("all available forms of {} in one program: {}", dev.name, e), replay: chk.to_json() });
